@@ -909,6 +909,45 @@ func subjects() []*subject {
 			}},
 		}, copies: []copyKind{{"ShallowCopy", true, false, func(o interface{}) interface{} { return o.(*bootstrapping.Evaluator).ShallowCopy() }}}})
 	}
+	// bootstrapping.Evaluator with conjugate-invariant residual parameters (the copy rebuilds its domain switcher)
+	{
+		res, err := ckks.NewParametersFromLiteral(ckks.ParametersLiteral{LogN: 9, LogNthRoot: 11, LogQ: []int{60, 40}, LogP: []int{61}, LogDefaultScale: 40, RingType: ring.ConjugateInvariant})
+		tr.Must(err)
+		ln, mr := 10, bootstrapping.DefaultLogMessageRatio+16-9
+		bp, err := bootstrapping.NewParametersFromLiteral(res, bootstrapping.ParametersLiteral{LogN: &ln, LogMessageRatio: &mr})
+		tr.Must(err)
+		bsk := rlwe.NewKeyGenerator(res).GenSecretKeyNew()
+		keys, _, err := bp.GenEvaluationKeys(bsk)
+		tr.Must(err)
+		bev, err := bootstrapping.NewEvaluator(bp, keys)
+		tr.Must(err)
+		becd := ckks.NewEncoder(res)
+		mkct := func(seed int) *rlwe.Ciphertext {
+			v := make([]float64, res.MaxSlots())
+			for i := range v {
+				v[i] = float64((i*seed)%9)/8 - 0.5
+			}
+			pt := ckks.NewPlaintext(res, 0)
+			tr.Must(becd.Encode(v, pt))
+			ct, err := rlwe.NewEncryptor(res, bsk).WithPRNG(keyedPRNG()).EncryptNew(pt)
+			tr.Must(err)
+			return ct
+		}
+		l, r := mkct(3), mkct(5)
+		out = append(out, &subject{name: "bootstrapping.Evaluator/conjugate invariant", orig: bev, heavy: true, ops: []op{
+			{"EvaluateConjugateInvariant pair", func(o interface{}) (string, error) {
+				a, b, err := o.(*bootstrapping.Evaluator).EvaluateConjugateInvariant(l.CopyNew(), r.CopyNew())
+				if err != nil {
+					return "", err
+				}
+				return dg(a, b), nil
+			}},
+			{"EvaluateConjugateInvariant single", func(o interface{}) (string, error) {
+				a, _, err := o.(*bootstrapping.Evaluator).EvaluateConjugateInvariant(l.CopyNew(), nil)
+				return dg(a), err
+			}},
+		}, copies: []copyKind{{"ShallowCopy", true, false, func(o interface{}) interface{} { return o.(*bootstrapping.Evaluator).ShallowCopy() }}}})
+	}
 	// rlwe.MemEvaluationKeySet.ShallowCopy
 	out = append(out, &subject{name: "rlwe.MemEvaluationKeySet", orig: f.evk, ops: []op{
 		{"GetGaloisKey", func(o interface{}) (string, error) {
